@@ -118,6 +118,10 @@ def gen(rng, tier):
             if shape == "ws.h11":
                 client.append(["feed", ws.handshake(path=b"/t%d" % tag)])
                 client.append(["feed", ws.message_frames(ws.OP_TEXT, b"m1")])
+                if rng.random() < 0.5:
+                    # control frames and messages sharing one read: a reply that fails closes the connection mid-chunk
+                    client.append(["feed", ws.frame(ws.OP_PING, b"p") + ws.message_frames(ws.OP_TEXT, b"m2") + ws.frame(ws.OP_PING, b"q") +
+                                   ws.message_frames(ws.OP_TEXT, b"m3")])
                 reactor = {"kind": "ws", "echo_close": rng.random() < 0.5}
             else:
                 fb = FrameBuilder()
@@ -125,12 +129,19 @@ def gen(rng, tier):
                       (b":authority", b"h"), (b"sec-websocket-version", b"13")]
                 client.append(["feed", client_preface(fb, {}) + fb.headers(1, hd, end_stream=False)])
                 client.append(["feed", fb.data(1, ws.message_frames(ws.OP_TEXT, b"m1"))])
+                if rng.random() < 0.5:
+                    client.append(["feed", fb.data(1, ws.frame(ws.OP_PING, b"p") + ws.message_frames(ws.OP_TEXT, b"m2") + ws.frame(ws.OP_PING, b"q") +
+                                                   ws.message_frames(ws.OP_TEXT, b"m3"))])
                 reactor = {"kind": "h2", "credit": "auto"}
-        closure = rng.choice(["eof", "reset", "fail_write", "idle_expiry", "terminate", "ws_client_close" if shape.startswith("ws") else "eof"])
+        closure = rng.choice(["eof", "reset", "fail_write", "idle_expiry", "terminate", "ws_client_close" if shape.startswith("ws") else "eof"]
+                             + (["client_goaway", "client_goaway"] if shape == "h2.three" else []))
+        if shape == "h2.three" and rng.random() < 0.3:
+            config["keep_alive_max_requests"] = rng.choice([1, 2])  # the server itself sends GOAWAY while applications are still running
         pos = rng.randint(0, len(client))
         step = {"eof": [["eof"]], "reset": [["reset"]], "fail_write": [["fail_write_at", rng.choice([1, 2, 3])]],
                 "idle_expiry": [["advance", 2.5 * T]], "terminate": [["terminate"]],
-                "ws_client_close": [["feed", ws.close_frame(rng.choice([1000, 1001, None]))]] if shape == "ws.h11" else [["eof"]]}[closure]
+                "ws_client_close": [["feed", ws.close_frame(rng.choice([1000, 1001, None]))]] if shape == "ws.h11" else [["eof"]],
+                "client_goaway": [["feed", FrameBuilder().goaway(last=5, code=0)], ["eof"]]}[closure]
         client = client[:pos] + [["mark", "closure"]] + step + client[pos:]
         client += [["settle"], ["trigger", "late"], ["settle"], ["advance", 2.5 * T], ["eof"], ["settle"]]
         case = {
